@@ -2,6 +2,7 @@ package core
 
 import (
 	"fmt"
+	"os"
 	"strings"
 
 	"github.com/ryogrid/SamehadaDB/lib/verifshim/vrand"
@@ -127,6 +128,11 @@ func ExploreSchedWhole(c *Ctx, sc *Scenario) { exploreSched(c, sc, false) }
 
 func exploreSched(c *Ctx, sc *Scenario, split bool) {
 	res := c.Res
+	if b, err := os.ReadFile("/verif/.build/ov/warnings.txt"); err == nil && len(b) > 0 {
+		for _, w := range strings.Split(string(b), "\n") {
+			res.Note("not under the scheduler's control: %s", w)
+		}
+	}
 	res.Bound[sc.Name+".preemption_bound"] = sc.Bound
 	res.Bound[sc.Name+".conflict_directed"] = !sc.NoCD
 	if sc.FreeBound > 0 {
